@@ -319,6 +319,16 @@ static void on_exit_handler(void)
     }
 }
 
+extern void __asan_init(void) __attribute__((weak));
+static void on_fatal_signal(int sig)
+{
+    /* non-ASan flavours only: leave a fate line (with the API context), then die by the signal */
+    fate_line("died");
+    dump_counters_fd();
+    signal(sig, SIG_DFL);
+    raise(sig);
+}
+
 static void on_alarm(int sig)
 {
     (void)sig;
@@ -436,6 +446,19 @@ int vh_main(int argc, char **argv, const vh_harness *h)
     sigaction(SIGALRM, &sa, NULL);
     if (__sanitizer_set_death_callback)
         __sanitizer_set_death_callback(on_death);
+    if (!__asan_init) {
+        static char altstack[1 << 16];
+        stack_t ss;
+        ss.ss_sp = altstack; ss.ss_size = sizeof(altstack); ss.ss_flags = 0;
+        sigaltstack(&ss, NULL);
+        sa.sa_handler = on_fatal_signal;
+        sa.sa_flags = SA_ONSTACK | SA_RESETHAND;
+        sigaction(SIGSEGV, &sa, NULL);
+        sigaction(SIGBUS, &sa, NULL);
+        sigaction(SIGFPE, &sa, NULL);
+        sigaction(SIGABRT, &sa, NULL);
+        sigaction(SIGILL, &sa, NULL);
+    }
 
     n = h->ncases(vh_tier, req);
     fprintf(vh_out, "{\"t\":\"start\",\"harness\":\"%s\",\"ncases\":%ld,\"shard\":%ld,\"nshards\":%ld,\"first\":%ld,\"lsan\":%d}\n",
